@@ -22,6 +22,20 @@ func tmpRoot() string {
 
 // runWorld executes a whole plan once in a fresh bubble. extra applies to the
 // last run only (C04 placements).
+// noBubble: the next runWorld executes outside a bubble (warm-up only; real clock, no waiting for the simulated agent).
+var noBubble bool
+
+// warmUpG: one honest request, outside any bubble (sim.Spec.WarmUp).
+func warmUpG(t *testing.T) {
+	p := &GPlan{Users: []GUser{{Name: "warmup", KeyKind: "ed25519", Dir: "pub"}}, AgentKeys: []string{"warmup"}, ValiditySec: 3600,
+		KeyIDs: map[string]string{"default": "slot-warmup"},
+		Runs: []GRun{{LogName: "warmup", ReqUser: "warmup", ReqHost: "host.example.com", IP: "1.2.3.4", Policy: "NONS", CAAlgo: -1,
+			Handlers: []string{"regular"}, Agent: "honest", CA: GCA{Mode: "ok", NCerts: 1, FailAt: -1}, StubCSRs: 1}}}
+	noBubble = true
+	defer func() { noBubble = false }()
+	runWorld(t, &sim.Outcome{}, p, newFresh(), "warm-up", noExtra(), false)
+}
+
 func runWorld(t *testing.T, o *sim.Outcome, p *GPlan, fr *fresh, exec string, extra extraFault, check bool) *world {
 	dir, err := os.MkdirTemp(tmpRoot(), "g-")
 	if err != nil {
@@ -31,7 +45,11 @@ func runWorld(t *testing.T, o *sim.Outcome, p *GPlan, fr *fresh, exec string, ex
 	defer os.RemoveAll(dir)
 	keys.ResetRSA()
 	w := &world{plan: p, dir: dir, oldSig: map[string][]byte{}}
-	fail := sim.InBubble(t, func() {
+	inBubble := sim.InBubble
+	if noBubble {
+		inBubble = func(t *testing.T, f func()) string { f(); return "" }
+	}
+	fail := inBubble(t, func() {
 		if err := w.setupDir(); err != nil {
 			o.Fail("harness.setup", "dir", 0, "%v", err)
 			return
@@ -348,10 +366,10 @@ func genFor(odd bool, faultRate float64, maxRuns int) func(r *sim.Rng, tier stri
 
 // Specs of the gensign world.
 var Specs = []*sim.Spec{
-	{Property: "C01", World: "G", Generate: genFor(false, 0.25, 6), Execute: execG(true), Shrink: shrinkG},
-	{Property: "C02", World: "G", Generate: genFor(true, 0.15, 4), Execute: execG(true), Shrink: shrinkG},
-	{Property: "C03", World: "G", Generate: genFor(false, 0.35, 6), Execute: execG(false), Shrink: shrinkG},
-	{Property: "C04", World: "G", Generate: genEnum, Execute: execG(false), Shrink: shrinkEnum},
+	{Property: "C01", World: "G", WarmUp: warmUpG, Generate: genFor(false, 0.25, 6), Execute: execG(true), Shrink: shrinkG},
+	{Property: "C02", World: "G", WarmUp: warmUpG, Generate: genFor(true, 0.15, 4), Execute: execG(true), Shrink: shrinkG},
+	{Property: "C03", World: "G", WarmUp: warmUpG, Generate: genFor(false, 0.35, 6), Execute: execG(false), Shrink: shrinkG},
+	{Property: "C04", World: "G", WarmUp: warmUpG, Generate: genEnum, Execute: execG(false), Shrink: shrinkEnum},
 }
 
 func phaseAt(w *world, last int) string {
